@@ -219,7 +219,7 @@ func c03() *core.Check {
 		Plan: func(tier string, seed uint64) []core.Unit {
 			total := g03ExhaustiveCount()
 			if tier == "thorough" {
-				total += 6000000
+				total += 60000000
 			} else {
 				total += 300000
 			}
